@@ -1,10 +1,10 @@
-import LanceModel.C17.InvLemmas
+import LanceModel.C17Base.InvLemmas
 import LanceModel.C18.Model
 /-
 C18 lemmas, layer 2: rows with their addresses; extending deletion vectors at a set of addresses.
 -/
 namespace LanceModel.C18
-open LanceModel.Table LanceModel.C17 List
+open LanceModel.Table LanceModel.C17Base List
 
 abbrev TRow := (Nat × Nat) × PRow
 
